@@ -63,6 +63,7 @@ type Conn struct {
 	rArmed bool
 	rDL    time.Time
 	wArmed bool
+	wDL    time.Time
 
 	Srv Server
 	// Seg decides how many bytes (1..avail) a Read may return; nil = as many as fit.
@@ -81,13 +82,22 @@ type Conn struct {
 	blockedReaders int
 	ID       int
 
+	// ReadCutAfter >= 0: after this many delivered bytes the stream ends (EOF, or reset when ReadCutReset).
+	ReadCutAfter int64
+	ReadCutReset bool
+	ReadCutStall bool // at the cut the server just stays silent
+	// CorruptAt >= 0: XOR the server byte at this stream offset with CorruptMask.
+	CorruptAt   int64
+	CorruptMask byte
+	delivered    int64
+
 	// BlockWritesAfter >= 0: the peer stops reading after this many bytes: Write blocks
 	// (until Close or an armed write deadline expires - virtual: fails at once with a timeout when armed).
 	BlockWritesAfter int64
 }
 
 func New(srv Server) *Conn {
-	c := &Conn{Srv: srv, WriteFailAfter: -1, BlockWritesAfter: -1, released: map[string]bool{}}
+	c := &Conn{Srv: srv, WriteFailAfter: -1, BlockWritesAfter: -1, ReadCutAfter: -1, CorruptAt: -1, released: map[string]bool{}}
 	c.cond = sync.NewCond(&c.mu)
 	return c
 }
@@ -151,6 +161,49 @@ func (c *Conn) Push(items ...Item) {
 	c.mu.Unlock()
 	c.cond.Broadcast()
 }
+
+// QueueLen reports queued, undelivered items.
+func (c *Conn) QueueLen() int {
+	c.mu.Lock()
+	defer c.mu.Unlock()
+	if c.ReadCutStall && c.ReadCutAfter >= 0 && c.delivered >= c.ReadCutAfter {
+		return 0 // the server is silent from here on
+	}
+	return len(c.queue)
+}
+
+// DropQueuedAfterCurrent removes every queued item except a partially delivered one.
+func (c *Conn) DropQueuedAfterCurrent() {
+	c.mu.Lock()
+	if len(c.queue) > 0 && c.qoff > 0 {
+		c.queue = c.queue[:1]
+	} else {
+		c.queue = nil
+	}
+	c.mu.Unlock()
+}
+
+// PushFront inserts items before everything queued (but after a partially delivered item).
+func (c *Conn) PushFront(items ...Item) {
+	c.mu.Lock()
+	if len(c.queue) > 0 && c.qoff > 0 {
+		rest := append([]Item(nil), c.queue[1:]...)
+		c.queue = append(append(c.queue[:1:1], items...), rest...)
+	} else {
+		c.queue = append(append([]Item(nil), items...), c.queue...)
+	}
+	c.mu.Unlock()
+	c.cond.Broadcast()
+}
+
+// Delivered returns the number of server bytes handed to the client so far.
+func (c *Conn) Delivered() int64 { c.mu.Lock(); defer c.mu.Unlock(); return c.delivered }
+
+// WrittenBytes returns the number of client bytes accepted so far.
+func (c *Conn) WrittenBytes() int64 { c.mu.Lock(); defer c.mu.Unlock(); return c.written }
+
+// Locked runs f while holding the connection lock (the lock under which the server is fed).
+func (c *Conn) Locked(f func()) { c.mu.Lock(); f(); c.mu.Unlock() }
 
 // Release opens a held gate.
 func (c *Conn) Release(gate string) {
@@ -242,13 +295,41 @@ func (c *Conn) Read(p []byte) (int, error) {
 			if n > len(p) {
 				n = len(p)
 			}
+			if c.ReadCutAfter >= 0 {
+				if left := c.ReadCutAfter - c.delivered; int64(n) > left {
+					n = int(left)
+				}
+				if n <= 0 {
+					if c.ReadCutStall {
+						if c.rArmed && !c.rDL.IsZero() && !time.Now().Before(c.rDL) {
+							c.rec(Event{Op: "read", Err: "timeout"})
+							c.mu.Unlock()
+							return 0, &net.OpError{Op: "read", Net: "sim", Err: timeoutErr{}}
+						}
+						c.waitRead()
+						continue
+					}
+					if c.ReadCutReset {
+						c.rec(Event{Op: "read", Err: "reset"})
+						c.mu.Unlock()
+						return 0, &net.OpError{Op: "read", Net: "sim", Err: errors.New("connection reset by peer")}
+					}
+					c.rec(Event{Op: "read", Err: "EOF"})
+					c.mu.Unlock()
+					return 0, io.EOF
+				}
+			}
 			if c.Seg != nil {
 				if m := c.Seg(avail, len(p)); m >= 1 && m < n {
 					n = m
 				}
 			}
 			copy(p, it.Data[c.qoff:c.qoff+n])
+			if c.CorruptAt >= c.delivered && c.CorruptAt < c.delivered+int64(n) {
+				p[c.CorruptAt-c.delivered] ^= c.CorruptMask
+			}
 			c.qoff += n
+			c.delivered += int64(n)
 			if c.qoff == len(it.Data) {
 				c.queue = c.queue[1:]
 				c.qoff = 0
@@ -320,8 +401,15 @@ func (c *Conn) Write(p []byte) (int, error) {
 		if n < 0 {
 			n = 0
 		}
-		for !c.closed && !c.wArmed {
+		for !c.closed && !(c.wArmed && !time.Now().Before(c.wDL.Add(2*time.Millisecond))) {
+			var t *time.Timer
+			if c.wArmed {
+				t = time.AfterFunc(time.Until(c.wDL)+3*time.Millisecond, func() { c.cond.Broadcast() })
+			}
 			c.cond.Wait()
+			if t != nil {
+				t.Stop()
+			}
 		}
 		if c.closed {
 			err = &net.OpError{Op: "write", Net: "sim", Err: net.ErrClosed}
@@ -398,6 +486,7 @@ func (c *Conn) SetReadDeadline(t time.Time) error {
 func (c *Conn) SetWriteDeadline(t time.Time) error {
 	c.mu.Lock()
 	c.wArmed = !t.IsZero()
+	c.wDL = t
 	c.rec(Event{Op: "set-write-deadline", Armed: c.wArmed})
 	c.mu.Unlock()
 	c.cond.Broadcast()
